@@ -37,7 +37,8 @@ TEXT = {
           "thorough) over all subset pairs x 4 representations and by random sets for larger/multi-limb primes. Root finding and "
           "constraints (h_zp): every result of lp_upolynomial_roots_find_Zp (brute force, randomised finder above the threshold incl. "
           "multi-limb primes, and the randomised finder forced below it by the LIBPOLY_VERIF hook) must consist of distinct field "
-          "elements in the symmetric range that are roots, as many as the field has (exhaustive evaluation for p <= 20000, "
+          "elements in the symmetric range that are roots - judged by the model's Horner evaluation mod p, which is proved to be the "
+          "evaluation in (Z/p)[X] (C14_eval_spec, C14_eval_zero_iff) - as many as the field has (exhaustive evaluation for p <= 20000, "
           "deg gcd(f, x^p - x) by the model's modular powering otherwise); constraint feasible sets over Z_p must satisfy the set "
           "representation invariant and be exactly the solution set (all residues for small p; probes + root count for large p), "
           "lp_feasibility_set_int_contains must agree on every probe; constraint_evaluate_Zp and reduce_degree_Zp (same function on "
